@@ -435,6 +435,10 @@ class PolyFacet:
             return self.node_atom(n)
         if op == "Scatter" and self.cell is not None:
             base, idx, val = n.args
+            if idx.op == "Tuple" and idx.args and all(
+                    (a.op == "Slice" and all(x.op == "Const" and x.attr is None for x in a.args)) or
+                    (a.op == "Const" and a.attr is Ellipsis) for a in idx.args[1:]):
+                idx = idx.args[0]           # x[mask, :] = v : whole rows selected by the mask
             t = eval_formula(self.cell[0].formula(idx), self.cell[1])
             if t is True:
                 return self.of(val)
@@ -500,6 +504,10 @@ class PolyFacet:
                 aid = self.atom((SUM_FUNCS[q], a.rat.key(), tuple(sorted(a.zc)), self.g.vn(axn)),
                                 kind=SUM_FUNCS[q], inner=a, node=n)
                 return Val(Rat(self.atom_poly(aid)))
+            if q in ("numpy.outer", "numpy.multiply.outer") and len(args) == 2:
+                r_ = self.mul(self.of(args[0]), self.of(args[1]))     # element (i, j) is a[i] * b[j]
+                if r_ is not None:
+                    return r_
             if q in ("numpy.full", "numpy.full_like") and len(args) >= 2:
                 return self.of(args[1])
             if q in ("numpy.zeros", "numpy.zeros_like") and args:
